@@ -48,10 +48,10 @@ def evaluate(diff: Path, run_tests: bool, props):
         sid = diff.parent.name
         demo = diff.parent / "demo.py"
     else:
-        rnd = "r2-" if diff.parent.name.startswith(("seed2-", "seed3-")) else ("r3-" if diff.parent.name.startswith("seed4-") else ("r4-" if diff.parent.name.startswith("seed5-") else ("r5-" if diff.parent.name.startswith("seed6-") else ("r6-" if diff.parent.name.startswith("seed7-") else ("r7-" if diff.parent.name.startswith("seed8-") else ("r8-" if diff.parent.name.startswith("seed9-") else ""))))))
-        base = diff.parent.name
-        for pre in ("seed9-", "seed8-", "seed7-", "seed6-", "seed5-", "seed4-", "seed3-", "seed2-", "seed-"):
-            base = base.replace(pre, "")
+        mm = re.match(r"seed(\d*)-(.*)$", diff.parent.name)
+        n = int(mm.group(1) or 1) if mm else 1
+        rnd = "" if n <= 1 else ("r2-" if n in (2, 3) else f"r{n - 1}-")
+        base = mm.group(2) if mm else diff.parent.name
         sid = f"{base}-{rnd}{diff.stem.replace('change', '').replace('refactor', 'r')}"
         demo = diff.parent / diff.name.replace("change", "demo").replace(".diff", ".py")
     tmp = Path(tempfile.mkdtemp(prefix="usa-seed-"))
